@@ -114,13 +114,25 @@ def env_cases(draw):
     return {"first": first, "obs": obs, "nb": draw(st.integers(1, 6))}
 
 
+def init_reference(env, first, nb):
+    """Give the environment its first best loss the way a calibration does: through RLScheduler.update() of the
+    bootstrap batch (no private attribute of the environment is touched by the harness)."""
+    from black_it.samplers.random_uniform import RandomUniformSampler
+    from black_it.schedulers.rl.agents.epsilon_greedy import MABEpsilonGreedy
+    from black_it.schedulers.rl.rl_scheduler import RLScheduler
+
+    n = max(1, nb - 1)
+    sch = RLScheduler([RandomUniformSampler(1) for _ in range(n)], agent=MABEpsilonGreedy(n + 1, -1, 0.0), env=env)
+    sch.update(0, np.zeros((1, 2)), np.array([first]), np.zeros((1, 1, 2, 1)))
+
+
 def check_env(ctx: Ctx, case):
     from black_it.schedulers.rl.envs.mab import MABCalibrationEnv
 
     sub = "env"
     with guard(ctx, "C19/exception", sub, case):
         env = MABCalibrationEnv(case["nb"])
-        env._curr_best_loss = case["first"]  # what RLScheduler.update does after the bootstrap batch
+        init_reference(env, case["first"], case["nb"])
     ref = case["first"]
     imp = sum(1 for i, v in enumerate(case["obs"]) if v < min([case["first"]] + case["obs"][:i]))
     ctx.count(sub, case, imp >= 1 and imp < len(case["obs"]), [f"improvements={min(imp, 3)}"])
@@ -136,10 +148,8 @@ def check_env(ctx: Ctx, case):
         if not close(float(r), exp):
             ctx.fail("C19/reward", f"step {step}: reward {r!r}, relative improvement rule gives {exp!r}", sub, case)
             return
-        if env._curr_best_loss != ref:
-            ctx.fail("C19/reference-best", f"step {step}: reference best is {env._curr_best_loss!r}, should be {ref!r} "
-                     "(moves only on improvement)", sub, case)
-            return
+        # (the reference best itself is private state: that it moves only on improvement is observed through the
+        # rewards of the following observations, which are all computed against it)
 
 
 SUBCHECKS = {"agent": check_agent, "env": check_env}
